@@ -1,5 +1,5 @@
 """C35 — The pruner only removes blocks that are safe to remove."""
-from engine.rules import Cmp, Has, all_call_sites, call_expr, call_result_honoured, call_sites_with, exit_sites, loop_heads, require_guard, root_fn, walk
+from engine.rules import BoolIs, Cmp, Has, all_call_sites, call_expr, call_result_honoured, call_sites_with, exit_sites, loop_heads, require_guard, root_fn, walk
 from engine.mir import has_all, has_leaf
 
 P = "lumina_node::pruner::"
@@ -86,7 +86,7 @@ def run(ctx):
         ins = call_sites_with(ctx, g, ["*BlockRanges::insert_relaxed"])
         ctx.check(len(ins) == 1, "C35.batch.insert-site", g.path, "one insertion of after-sampling-window heights", key="C35.batch.insert-site")
         if ins:
-            require_guard(ctx, g, Has(["call:*BlockRanges::contains", "call:" + D + "Daser::want_to_prune"], name="sampled_ranges.contains(height) || daser.want_to_prune(height)"), "C35.batch.consent", targets=ins)
+            require_guard(ctx, g, BoolIs(["*BlockRanges::contains", D + "Daser::want_to_prune*"], True, name="sampled_ranges.contains(height) || daser.want_to_prune(height) is TRUE"), "C35.batch.consent", targets=ins)
             ie = call_expr(g, ins[0])
             ctx.check(has_leaf(ctx.leaves(ie), "self.cache.after_sampling_window"), "C35.batch.insert-source", g.path, "inserted heights come from the after-sampling-window candidates", key="C35.batch.insert-source")
         for w in call_sites_with(ctx, g, [D + "Daser::want_to_prune"]):
